@@ -5,6 +5,7 @@ import (
 	"encoding/base64"
 	"fmt"
 
+	"github.com/russellhaering/gosaml2/types"
 	dsig "github.com/russellhaering/goxmldsig"
 
 	"verifsim/core"
@@ -24,7 +25,7 @@ func init() {
 			"the strict receiver parses with XML attribute-value normalisation, verifies with goxmldsig against the reported and published certificate, and checks Reference target, declared methods, embedded certificate and position right after Issuer; distinct = shape hash (key config, algorithm, canonicaliser, kind, phase, string classes, outcome)",
 		Directed:   c13Directed,
 		Run:        c13Run,
-		MustHit:    []string{"enc=setter", "sig=field", "sig=setter", "sig=none", "ec_signer", "alg_configured", "canon_configured", "kind=AuthnRequest", "kind=LogoutRequest", "kind=LogoutResponse", "phase=cached", "phase=restart", "hostile_strings", "value_with_CR", "sign_requests_off"},
+		MustHit:    []string{"enc=setter", "sig=field", "sig=setter", "sig=none", "ec_signer", "alg_configured", "canon_configured", "kind=AuthnRequest", "kind=LogoutRequest", "kind=LogoutResponse", "phase=cached", "phase=restart", "hostile_strings", "value_with_CR", "sign_requests_off", "neighbour_sp_sharing_key_store_objects_signs"},
 		RandomRuns: map[string]int{"quick": 6000, "thorough": 50000},
 		Assumptions: []string{"ECDSA signatures are verified with the same goxmldsig verifier the library's users would use; their octet encoding versus other XML-DSig stacks is a dependency matter",
 			"only algorithm / key-type combinations the signing library supports are configured"},
@@ -53,11 +54,56 @@ func c13Directed(tier string) [][]uint64 {
 func c13Run(r *core.Run) {
 	t := r.Tape
 	o := DrawOut(r, 0, false)
+	shared := t.Int(3, "c13.sharedstore") == 1
+	if shared {
+		o.Cfg.SharedKeyStores = &world.SharedKS{}
+	}
 	if !o.PreHistory(r) || !o.Build() {
 		return
 	}
 	kind := outKinds[t.Int(3, "c13.kind")]
 	phase := []string{"first-use", "cached", "restart"}[t.Int(3, "c13.phase")]
+	// a neighbour service provider that was handed the very same key-store objects but is configured
+	// with another signature algorithm and canonicaliser; it signs before (and between) the measured calls
+	var neighbour *world.SPNode
+	neighbourSigns := func() {
+		if neighbour == nil {
+			return
+		}
+		world.Guard(func() error {
+			neighbour.SP.BuildAuthRequest()
+			neighbour.SP.BuildLogoutRequestDocument("neighbour", "n1")
+			neighbour.SP.BuildLogoutResponseDocument(world.StatusOK, "_n")
+			return nil
+		})
+		r.Fault("neighbour_sp_sharing_key_store_objects_signs")
+	}
+	if shared {
+		cfgN := *o.Cfg
+		cfgN.Reuse, cfgN.Live, cfgN.Name = nil, false, "neighbour"
+		algs := world.RSASigAlgs
+		if world.Key(o.WantSignKey).EC != nil {
+			algs = world.ECSigAlgs
+		}
+		cfgN.SigAlg = algs[(1+t.Int(len(algs)-1, "c13.neighbour.alg"))%len(algs)]
+		if cfgN.SigAlg == o.WantSigAlg {
+			cfgN.SigAlg = algs[len(algs)-1]
+		}
+		nc := world.C14NAlgs[t.Int(len(world.C14NAlgs), "c13.neighbour.canon")]
+		if nc == o.WantC14N {
+			nc = world.C14NAlgs[(t.Int(len(world.C14NAlgs), "c13.neighbour.canon2")+1)%len(world.C14NAlgs)]
+		}
+		cfgN.Canon, cfgN.CanonName = world.CanonFor(nc, ""), nc
+		cfgN.SignRequests = true
+		cfgN.SPIssuer, cfgN.ACS = "https://neighbour.example/meta", "https://neighbour.example/acs"
+		nn, err := world.NewSPNode(&cfgN, r.Sim.Time)
+		if err != nil {
+			r.HarnessError("neighbour: %v", err)
+			return
+		}
+		neighbour = nn
+		neighbourSigns()
+	}
 	if t.Int(3, "c13.signrequests") == 1 {
 		// request signing switched off: AuthnRequests go out unsigned, logout messages are still
 		// signed and must still honour the configured algorithm and canonicaliser
@@ -90,6 +136,7 @@ func c13Run(r *core.Run) {
 	switch phase {
 	case "cached":
 		o.BuildOut(r, outKinds[t.Int(3, "c13.warmkind")], true, false)
+		neighbourSigns()
 	case "restart":
 		o.BuildOut(r, kind, true, false)
 		if !o.Build() {
@@ -184,17 +231,25 @@ func c13Run(r *core.Run) {
 		r.Fail("verify", sig, ctx)
 		return
 	}
-	// what the metadata publishes as signing key is the same certificate
-	md, mo := mdOf(o)
-	if mo.OK() && md != nil {
-		pub := ""
-		for _, kd := range md.SPSSODescriptor.KeyDescriptors {
-			if kd.Use == "signing" && len(kd.KeyInfo.X509Data.X509Certificates) > 0 {
-				pub = kd.KeyInfo.X509Data.X509Certificates[0].Data
+	// what the metadata (both variants) publishes as signing key is the same certificate
+	for vi, variant := range []func() (*types.EntityDescriptor, error){o.Node.SP.Metadata, func() (*types.EntityDescriptor, error) { return o.Node.SP.MetadataWithSLO(24) }} {
+		var md *types.EntityDescriptor
+		mo := world.Guard(func() error {
+			var err error
+			md, err = variant()
+			return err
+		})
+		if mo.OK() && md != nil && md.SPSSODescriptor != nil {
+			pub := ""
+			for _, kd := range md.SPSSODescriptor.KeyDescriptors {
+				if kd.Use == "signing" && len(kd.KeyInfo.X509Data.X509Certificates) > 0 {
+					pub = kd.KeyInfo.X509Data.X509Certificates[0].Data
+				}
 			}
-		}
-		if pub != "" && pub != base64.StdEncoding.EncodeToString(reported) {
-			r.Fail("certificate", "C13/metadata-signing-certificate-differs/"+o.KeyCfg(), ctx)
+			if pub != "" && pub != base64.StdEncoding.EncodeToString(reported) {
+				r.Fail("certificate", fmt.Sprintf("C13/metadata-signing-certificate-differs/%s/%s", []string{"Metadata", "MetadataWithSLO"}[vi], o.KeyCfg()), ctx)
+				return
+			}
 		}
 	}
 }
